@@ -11,6 +11,8 @@ import (
 	"fmt"
 	"math/big"
 	"strings"
+
+	"golang.org/x/crypto/sha3"
 )
 
 type Kind int
@@ -422,6 +424,10 @@ func callBuiltin(name string, a []Value) (Value, error) {
 		return Bytes(b), nil
 	case name == "toI256!" && len(a) == 1 && a[0].K == KInt:
 		return a[0], nil
+	case name == "keccak256!" && len(a) == 1 && a[0].K == KBytes:
+		h := sha3.NewLegacyKeccak256()
+		h.Write(a[0].B)
+		return Bytes(h.Sum(nil)), nil
 	}
 	return Unknown(), nil
 }
